@@ -459,7 +459,31 @@ counters read before the maintenance lock, as `C08-A`) make the library's own
 2, now within seconds: a panic on a STRESS thread ends the worker at once instead
 of leaving the others spinning until the watchdog) and C08 reports it.
 
+Eleventh round (ids ending in `11`; all 17 properties; the flavours of the tenth
+round swapped between the properties, and for C13–C17 "omissions and asymmetries
+between sibling code paths" with a numeric / time boundary or at least four
+operations in order). Most authors arrived at variants of earlier changes, which
+says the space of small plausible changes is being revisited rather than
+extended. Caught at once: 28 of 34. Strengthened after misses: `C07-A11` (SCHED
+of C07: a value whose insert read the clock before invalidate_all read it is
+targeted even if that insert returns only after the call — the property's own
+definition of "inserted before the call" — plus the litmus program "insert; get
+|| advance; invalidate_all; insert; get"), `C17-B11` (the differential between
+`new(n)` and `builder().max_capacity(n).build()` was restricted to histories in
+which the capacity cannot bind, because both caches hash randomly; with binding
+capacities four caches of each kind are now compared and a difference is
+reported only if each group is unanimous and the groups differ), `C09-A11`
+(litmus program "insert || exactly one write queue of inserts": the inserter is
+paused inside its own maintenance pass while another thread fills the queue
+exactly and finishes; the spin budget of the scheduler then reports the insert
+that never runs the maintenance again). `C08-B11` is
+reported by C17 (the documented build panic is missing), `C01-A11` by the STRESS
+of C07, `C11-A11` (as `C10-B7`) by the STRESS of C10 / C11 with some probability
+per run.
+
 Not caught (or caught only elsewhere), with the reason:
+* `C15-B11` — `C15-B2` again (needs an extra contains_key while the single-threaded
+  cache is over capacity: the trigger state of the open known finding U4).
 * `C14-A10` — a full read queue discards the *oldest* queued lookup instead of the
   new one. Which lookups a full queue sacrifices is the cache's choice; the
   statement only bounds what is recorded ("each at most once") and promises the
